@@ -84,18 +84,23 @@ func newHTTPRouteStatusSetter(status gatewayv1.HTTPRouteStatus, gatewayCtlrName 
 	return func(object client.Object) (wasSet bool) {
 		hr := helpers.MustCastObject[*gatewayv1.HTTPRoute](object)
 
-		// keep all the parent statuses that belong to other controllers
+		// keep all the parent statuses that belong to other controllers.
+		// The setter can be invoked more than once (the status updater retries on conflicts and failed updates),
+		// so merge into a copy and never into the captured status.
+		newStatus := status
+		newStatus.Parents = slices.Clone(status.Parents)
+
 		for _, os := range hr.Status.Parents {
 			if string(os.ControllerName) != gatewayCtlrName {
-				status.Parents = append(status.Parents, os)
+				newStatus.Parents = append(newStatus.Parents, os)
 			}
 		}
 
-		if routeStatusEqual(gatewayCtlrName, hr.Status.Parents, status.Parents) {
+		if routeStatusEqual(gatewayCtlrName, hr.Status.Parents, newStatus.Parents) {
 			return false
 		}
 
-		hr.Status = status
+		hr.Status = newStatus
 
 		return true
 	}
@@ -105,18 +110,23 @@ func newTLSRouteStatusSetter(status v1alpha2.TLSRouteStatus, gatewayCtlrName str
 	return func(object client.Object) (wasSet bool) {
 		tr := helpers.MustCastObject[*v1alpha2.TLSRoute](object)
 
-		// keep all the parent statuses that belong to other controllers
+		// keep all the parent statuses that belong to other controllers.
+		// The setter can be invoked more than once (the status updater retries on conflicts and failed updates),
+		// so merge into a copy and never into the captured status.
+		newStatus := status
+		newStatus.Parents = slices.Clone(status.Parents)
+
 		for _, os := range tr.Status.Parents {
 			if string(os.ControllerName) != gatewayCtlrName {
-				status.Parents = append(status.Parents, os)
+				newStatus.Parents = append(newStatus.Parents, os)
 			}
 		}
 
-		if routeStatusEqual(gatewayCtlrName, tr.Status.Parents, status.Parents) {
+		if routeStatusEqual(gatewayCtlrName, tr.Status.Parents, newStatus.Parents) {
 			return false
 		}
 
-		tr.Status = status
+		tr.Status = newStatus
 
 		return true
 	}
@@ -126,18 +136,23 @@ func newGRPCRouteStatusSetter(status gatewayv1.GRPCRouteStatus, gatewayCtlrName 
 	return func(object client.Object) (wasSet bool) {
 		gr := helpers.MustCastObject[*gatewayv1.GRPCRoute](object)
 
-		// keep all the parent statuses that belong to other controllers
+		// keep all the parent statuses that belong to other controllers.
+		// The setter can be invoked more than once (the status updater retries on conflicts and failed updates),
+		// so merge into a copy and never into the captured status.
+		newStatus := status
+		newStatus.Parents = slices.Clone(status.Parents)
+
 		for _, os := range gr.Status.Parents {
 			if string(os.ControllerName) != gatewayCtlrName {
-				status.Parents = append(status.Parents, os)
+				newStatus.Parents = append(newStatus.Parents, os)
 			}
 		}
 
-		if routeStatusEqual(gatewayCtlrName, gr.Status.Parents, status.Parents) {
+		if routeStatusEqual(gatewayCtlrName, gr.Status.Parents, newStatus.Parents) {
 			return false
 		}
 
-		gr.Status = status
+		gr.Status = newStatus
 
 		return true
 	}
@@ -232,13 +247,14 @@ func newBackendTLSPolicyStatusSetter(
 		}
 
 		ancestors = append(ancestors, status.Ancestors...)
-		status.Ancestors = ancestors
+		// the setter can be invoked more than once (retries): never store the merge in the captured status
+		newStatus := v1alpha2.PolicyStatus{Ancestors: ancestors}
 
-		if policyStatusEqual(gatewayCtlrName, btp.Status, status) {
+		if policyStatusEqual(gatewayCtlrName, btp.Status, newStatus) {
 			return false
 		}
 
-		btp.Status = status
+		btp.Status = newStatus
 		return true
 	}
 }
@@ -264,13 +280,14 @@ func newNGFPolicyStatusSetter(
 		}
 
 		ancestors = append(ancestors, status.Ancestors...)
-		status.Ancestors = ancestors
+		// the setter can be invoked more than once (retries): never store the merge in the captured status
+		newStatus := v1alpha2.PolicyStatus{Ancestors: ancestors}
 
-		if policyStatusEqual(gatewayCtlrName, prevStatus, status) {
+		if policyStatusEqual(gatewayCtlrName, prevStatus, newStatus) {
 			return false
 		}
 
-		policy.SetPolicyStatus(status)
+		policy.SetPolicyStatus(newStatus)
 		return true
 	}
 }
@@ -353,13 +370,14 @@ func newSnippetsFilterStatusSetter(
 		}
 
 		controllerStatuses = append(controllerStatuses, snippetsFilterStatus.Controllers...)
-		snippetsFilterStatus.Controllers = controllerStatuses
+		// the setter can be invoked more than once (retries): never store the merge in the captured status
+		newStatus := ngfAPI.SnippetsFilterStatus{Controllers: controllerStatuses}
 
-		if snippetsFilterStatusEqual(gatewayCtlrName, snippetsFilterStatus.Controllers, sf.Status.Controllers) {
+		if snippetsFilterStatusEqual(gatewayCtlrName, newStatus.Controllers, sf.Status.Controllers) {
 			return false
 		}
 
-		sf.Status = snippetsFilterStatus
+		sf.Status = newStatus
 		return true
 	}
 }
